@@ -6,6 +6,16 @@ from props import valcommon as vc
 PROP = "C19"
 
 
+def content(log, multi):
+    vals = []
+    for c in log:
+        if c == "C":
+            vals = []
+        elif c.startswith("S:"):
+            vals = vals + [c[2:]] if multi else [c[2:]]
+    return vals
+
+
 def run(tier, wd):
     rep = core.Report(PROP, tier, "model_checking")
     binpath = core.build_harness()
@@ -53,8 +63,11 @@ def run(tier, wd):
             rep.violation("%s: %s" % (vc.describe(case), r), {"engine": "values", "case": case, "expected": None})
             continue
         why = None
-        if r["envlog"] != clean["envlog"] and r["envlog"] != dev["envlog"]:
-            why = "declaration-time calls %s, specification says %s" % (r["envlog"], clean["envlog"])
+        # declaration phase: the property fixes what the value must hold afterwards (the tokens of the first valid variable, in
+        # order), not the exact calls; the content is what the calls leave behind (Clear empties, an accepted Set appends/replaces)
+        if content(r["envlog"], case["custom"]["multi"]) != content(clean["envlog"], case["custom"]["multi"]):
+            why = "declaration-time calls %s leave %s, specification says the value holds %s (calls %s)" % (
+                r["envlog"], content(r["envlog"], case["custom"]["multi"]), content(clean["envlog"], case["custom"]["multi"]), clean["envlog"])
         elif r["filllog"] != clean["filllog"]:
             why = "calls during Run %s, specification says %s" % (r["filllog"], clean["filllog"])
         elif clean["usage"] != (not r["ran"] and bool(r.get("err"))):
